@@ -12,7 +12,7 @@ INVS = ["Agreement", "ResultIsFunctionOfChain", "RestartInfo", "NothingBeforeCom
 
 MODE = {"C01": "replicas", "C06": "failed", "C07": "checks", "C08": "crash"}
 DEVS = {"C01": ["local"], "C06": ["failed"], "C07": ["check"], "C08": ["early", "stale"]}
-FAMILIES = ["base"]
+FAMILIES = ["base", "stake", "deleg", "alleg", "eth"]
 
 
 def model_check(ctx, prop):
@@ -91,7 +91,7 @@ def run(ctx, prop, replay, families=None, per_family=None):
         return
     mc = model_check(ctx, prop)
     quick = ctx.quick()
-    n, blocks = per_family or ((60, 14) if quick else (600, 20))
+    n, blocks = per_family or ((30, 14) if quick else (400, 20))
     tot = dict(scenarios=0, blocks=0, txs=0, accepted=0, dead=0, events=0, nontrivial=0)
     extra = {}
     samples = []
